@@ -9,6 +9,8 @@ func verifCount(name string, t *table) {}
 
 func verifPoint(name string) {}
 
+func verifPause(name string) {}
+
 func verifRead(t *table, offset wal.Offset) {}
 
 func verifReadInit(t *table, offset wal.Offset) {}
